@@ -155,8 +155,30 @@ def run(R, tier, seed, driver_ok):
         import copy as _copy
         variants = [('', unf), ('unpickled-', pickle.loads(pickle.dumps(cls()))), ('deepcopied-', _copy.deepcopy(cls())),
                     ('cloned-', clone(cls())), ('unpickled-with-preprocessor-', pickle.loads(pickle.dumps(cls(preprocessor=rng.randn(6, d)))))]
+        # … and when the only fit so far FAILED after the input checks (a parameter that is rejected late, a solver that gives
+        # up): the estimator is still not fitted
+        yk = np.arange(12) % 3; Xk = rng.randn(12, d); Pk = rng.randn(10, 2, d); ypk = np.where(np.arange(10) % 2, 1, -1)
+        late = {'LMNN': (dict(n_neighbors=6), (Xk, yk)), 'NCA': (dict(init=np.zeros((2, d + 2))), (Xk, yk)), 'MLKR': (dict(init=np.zeros((2, d + 2))), (Xk, yk.astype(float))),
+                'LFDA': (dict(n_components=d + 5), (Xk, yk)), 'RCA': (dict(n_components=d + 5), (Xk, yk)), 'RCA_Supervised': (dict(n_components=d + 5), (Xk, yk)),
+                'ITML': (dict(prior=np.zeros((d, d))), (Pk, ypk)), 'SDML': (dict(prior=np.zeros((d, d))), (Pk, ypk)), 'MMC': ({}, (Pk, np.ones(10))),
+                'LSML': (dict(prior=np.zeros((d, d))), (rng.randn(8, 4, d),)), 'SCML': (dict(basis='no-such-basis'), (rng.randn(8, 3, d),)),
+                'ITML_Supervised': (dict(prior=np.zeros((d, d))), (Xk, yk)), 'LSML_Supervised': (dict(prior=np.zeros((d, d))), (Xk, yk)),
+                'SDML_Supervised': (dict(prior=np.zeros((d, d))), (Xk, yk)), 'SCML_Supervised': (dict(basis='no-such-basis'), (Xk, yk))}
+        if name in late:
+            kw_, fa_ = late[name]
+            failed = cls(**kw_)
+            try:
+                with warnings.catch_warnings():
+                    warnings.simplefilter('ignore')
+                    failed.fit(*fa_)
+                R.count(f'failed-fit variant: the fit of {name} unexpectedly succeeded')
+            except Exception as e:
+                R.count(f'failed-fit variant: {type(e).__name__}')
+                variants.append(('after-a-failed-fit-', failed))
         for vlabel, inst in variants:
             for m, a in calls:
+                if vlabel.startswith('after-a-failed-fit') and m == 'set_threshold':
+                    continue            # (stores a number, computes nothing)
                 R.case(('c18', name, m, vlabel + 'unfitted'), True, branch='unfitted')
                 try:
                     with warnings.catch_warnings():
